@@ -34,7 +34,7 @@ META = dict(
                          "combinatorial 2-4 orbitals"),
     outside=["IEEE rounding and the complex64 storage of the combinatorial matrix (integrals used there are exactly "
              "representable dyadic rationals)", "registers wider than the bound",
-             "combinatorial/HCB on non-Hermitian or spin-dependent input (outside their documented domain)",
+             "combinatorial on non-Hermitian or spin-dependent input (outside its documented domain)",
              "coefficients below the 1e-8/1e-12 drop thresholds (threshold-assume policy)"],
     stubs=[], trusted_base=["symx.fock (textbook ladder action, Slater-Condon rules)", "symx.paulibv (Pauli action on bit-vectors)"],
 )
